@@ -40,6 +40,7 @@ def prepare(E):
     t['allclose'] = I.ExternFunc('torch.allclose', lambda a, b, **k: all(x == y for x, y in zip(a.a.reshape(-1), b.a.reshape(-1))))
     XT.m_round = lambda self: self._new(np.vectorize(lambda x: Fraction(round(x)), otypes=[object])(self.a))
     AC.install_function_apply(E)
+    AC.install_module_parameters(E)
 
 
 def setup(E, sde_type, noise, d):
@@ -144,6 +145,71 @@ def make_job(sde_type, noise, method, adjoint_method):
     return Job(f'{sde_type}-{noise}-{method}-{adjoint_method}', fn)
 
 
+def make_isolation_job(method, adjoint_method):
+    """"only the tensors asked for receive gradients": the real sdeint_adjoint is executed on an SDE with two parameters that both require
+    grad, with adjoint_params = [theta0].  Gradients reach leaves only through the tensor arguments of _SdeintAdjointMethod.apply for which
+    backward returns a gradient (y0, the extra solver state when it requires grad, the adjoint parameters).  Obligation: none of these
+    arguments other than the adjoint parameters themselves depends (in the autograd graph) on theta1, the parameter not asked for."""
+    def fn(E, rep, tier):
+        from pyvc.tensor import autograd_grad
+        rep.bounded_mode = BOUND
+        rep.under_contract('torchsde._core.adjoint.sdeint_adjoint', 'torchsde._core.adjoint._SdeintAdjointMethod.forward')
+        prepare(E)
+        S = AC.setup(E, 'diagonal', 'stratonovich', 1, 1, 1, eta_limit=1, n_params=2)
+        cx = S.cx
+        pbm = AC.PathBM((1, 1), 'none')
+        y0 = AC.leaf(H.sym_array('y0', (1, 1)))
+        ts = AC.ts_tensor([0, Fraction(1, 2), 1])
+        sdeint_adjoint = E.module('torchsde._core.adjoint').globals['sdeint_adjoint']
+        E.call(sdeint_adjoint, [S.user, y0, ts], dict(bm=pbm.stub(), method=method, adjoint_method=adjoint_method, dt=Fraction(1, 4),
+                                                      adjoint_params=[S.params[0]]), cx, 0)
+        ctx = E.last_fn_ctx
+        args = ctx.apply_args
+        tag = f'C09[stratonovich,diagonal,method={method},adjoint_method={adjoint_method}]/routing'
+        asked, other = S.params[0], S.params[1]
+        leaks = []
+        n_tensor = 0
+        for k, a_ in enumerate(args):
+            if not isinstance(a_, XT) or a_ is asked or not a_.rg:
+                continue
+            n_tensor += 1
+            r = autograd_grad(E, cx, 0, [a_], [other], grad_outputs=[XT(np.full(a_.a.shape, Fraction(1), dtype=object))], allow_unused=True, retain_graph=True)
+            if r[0] is not None and any(not Poly.lift(e).is_zero() for e in r[0].a.reshape(-1)):
+                leaks.append(k)
+        ok = not leaks and n_tensor >= 1
+        rep.add(f'{tag}.no-gradient-path-to-a-parameter-that-was-not-asked-for', 'frame', 'discharged' if ok else 'refuted', 'pyvc-exec+autograd-model',
+                model=None if ok else {'apply argument positions that require grad and depend on the other parameter': leaks,
+                                       'note': 'positions 13.. are y0, the extra solver state, the adjoint parameters'},
+                finding_key='C09/sdeint_adjoint[reversible_heun]/extra-solver-state-carries-graph-to-all-parameters' if method == 'reversible_heun' else None,
+                statement='tensor arguments of _SdeintAdjointMethod.apply that receive a gradient from backward do not depend on parameters outside adjoint_params')
+    return Job(f'isolation-{method}-{adjoint_method}', fn)
+
+
+def job_adjoint_params_selection(E, rep, tier):
+    """Which parameters sdeint_adjoint hands to the adjoint: None -> all parameters of the SDE; an explicit sequence -> exactly that sequence
+    (an empty one means no parameter gradients); parameters that do not require grad are dropped."""
+    rep.bounded_mode = BOUND
+    rep.under_contract('torchsde._core.adjoint.sdeint_adjoint')
+    prepare(E)
+    sdeint_adjoint = E.module('torchsde._core.adjoint').globals['sdeint_adjoint']
+    for label in ('None', '()', '[theta0]', '[theta1,theta0]'):
+        S = AC.setup(E, 'diagonal', 'stratonovich', 1, 1, 1, eta_limit=1, n_params=2)
+        cx = S.cx
+        # the user's SDE is an nn.Module (required for adjoint_params=None)
+        S.user.cls = H.user_class('UserModuleSDE', bases=(E.externs['torch.nn'].attrs['Module'],))
+        pbm = AC.PathBM((1, 1), 'none')
+        y0 = AC.leaf(H.sym_array('y0', (1, 1)))
+        asked = {'None': None, '()': (), '[theta0]': [S.params[0]], '[theta1,theta0]': [S.params[1], S.params[0]]}[label]
+        want = list(S.params) if asked is None else list(asked)
+        E.call(sdeint_adjoint, [S.user, y0, AC.ts_tensor([0, Fraction(1, 2), 1])],
+               dict(bm=pbm.stub(), method='midpoint', adjoint_method='midpoint', dt=Fraction(1, 4), adjoint_params=asked), cx, 0)
+        args = E.last_fn_ctx.apply_args
+        passed = [a_ for a_ in args[14:] if isinstance(a_, XT)]        # after the 13 non-tensor slots and y0 (no extra solver state for midpoint)
+        ok = len(passed) == len(want) and all(p_ is w_ for p_, w_ in zip(passed, want))
+        rep.add(f'C09/sdeint_adjoint/routing.adjoint-parameters-are-exactly-those-asked-for[adjoint_params={label}]', 'post', 'discharged' if ok else 'refuted',
+                'pyvc-exec', model=None if ok else {'asked': label, 'passed to the adjoint': len(passed), 'expected': len(want)})
+
+
 def uses_c11(j):
     """The backward-structure obligations above are stated against the real AdjointSDE; that its vector fields are those of the adjoint
     system is the contract C11 puts on AdjointSDE.  Its value clauses are part of the argument for C09 and are discharged here as well
@@ -164,6 +230,8 @@ def jobs(tier):
     from props import C11
     out = [make_job(*c) for c in CASES if c[2] != 'srk']
     out += [uses_c11(j) for j in C11.jobs(tier) if tier == 'thorough' or j.name.endswith('nograd')]
+    out += [make_isolation_job('midpoint', 'midpoint'), make_isolation_job('reversible_heun', 'adjoint_reversible_heun'),
+            make_isolation_job('euler_heun', 'heun'), Job('adjoint-params-selection', job_adjoint_params_selection)]
     for noise in ('diagonal', 'general'):
         for pattern in ('all', 'last-zero', 'middle-only'):
             j = C10.make_e2e_job(noise, pattern)
@@ -188,5 +256,15 @@ def canaries(tier):
 
 
 def native_replay(ob):
+    import re
     from props.base import run_native
+    m = re.search(r'method=(\w+),adjoint_method=(\w+)\]/routing.no-gradient-path', ob['name'])
+    if m:
+        return run_native('c09iso', {'method': m.group(1), 'adjoint_method': m.group(2)})
+    if 'routing.adjoint-parameters-are-exactly' in ob['name']:
+        return run_native('c09iso', {'method': 'midpoint', 'adjoint_method': 'midpoint'})
+    if 'uses:C11' in ob['name']:
+        r = run_native('c11')
+        if r.get('reproduced'):
+            return r
     return run_native('c09')
